@@ -16,6 +16,7 @@ let parse_call (tok : string) : call =
   | ["O"] -> COpen | ["A"] -> CAwait | ["T"] -> CTimeout | ["R"] -> CRead | ["X"] -> CClose
   | ["B0"] -> CDisableBuf | ["B1"] -> CEnableBuf | ["FAIL"] -> CFail
   | ["FAIL"; _] -> CFail   (* failure k bytes into the next burst: the model fails the whole burst; the wire is not compared *)
+  | ["STALL"; "0"] -> CStall   (* the peer stops reading now: every later transport write / shutdown stays pending *)
   | ["F"; "sa"; o; ok] -> CFeed (InSynAck (nat_of_int (int_of_string o), ok = "1"))
   | ["F"; "psh"; o] -> CFeed (InPush (nat_of_int (int_of_string o)))
   | ["F"; "fin"; o] -> CFeed (InFin (nat_of_int (int_of_string o)))
@@ -35,8 +36,9 @@ let is_pump (s : state) (t : int) =
 (* the forwarding task: process_stream_data is ONE long call in the implementation; in the model every loop
    iteration is a CPump call. Its PIdle is the scheduling point at the top of the loop; once it has returned
    (pump_done) the task is gone, whatever CPump calls are left in its program *)
-let pc_str (s : state) (t : int) (x : task) =
+let pc_str (intr : int list) (s : state) (t : int) (x : task) =
   match x.t_pc with
+  | PW4 _ when List.mem t intr -> "stalled-in-transport"
   | PIdle when is_pump s t -> if s.pump_done then "done" else "pump.loop"
   | PIdle ->
     if t = 0 then (if s.ralive then "recv" else "done")
@@ -78,9 +80,15 @@ let drv_conc args =
          | _ -> (match step !s O with Some s' -> s := s' | None -> go := false))
       done; !s end in
   let b = Buffer.create 256 in
+  (* tasks that were granted the step that writes the burst on a stalled transport: in the implementation the
+     task leaves its scheduling point and never reaches another one (the model's step is None from then on) *)
+  let intr = ref [] in
   let s = List.fold_left (fun s tok ->
       let t = int_of_string tok in
       let gone = is_pump s t && s.pump_done && (match (s.tasks (nat_of_int t)).t_pc with PIdle -> true | _ -> false) in
+      let entering = (match (s.tasks (nat_of_int t)).t_pc with
+          | PW4 _ -> s.stalled && not s.shut && not (List.mem t !intr) | _ -> false) in
+      if entering then (intr := t :: !intr; s) else
       match (if gone then None else step s (nat_of_int t)) with
       | Some s' -> free_recv s'
       | None -> Buffer.add_string b (Printf.sprintf "skip%d " t); s) s0 sched in
@@ -92,7 +100,7 @@ let drv_conc args =
   Buffer.add_string b (Printf.sprintf "| closed=%b shut=%b |" s.closed s.shut);
   for t = 0 to ntasks - 1 do
     let x = s.tasks (nat_of_int t) in
-    Buffer.add_string b (Printf.sprintf " t%d:%s:%s" t (if t = 0 && mode = "start" then "-" else pc_str s t x)
+    Buffer.add_string b (Printf.sprintf " t%d:%s:%s" t (if t = 0 && mode = "start" then "-" else pc_str !intr s t x)
                            (if is_pump s t then "-" else
                               match x.t_res with [] -> "-" | l -> String.concat "," (List.map res_str l)))
   done;
